@@ -127,6 +127,8 @@ def run_shard(shard, ctx):
                 res[op] = iso.to_ref(zip(r.keys(), r.values()))
                 if op != 'gp' and ctx.rng.random() < 0.12:
                     ops.check_special_values(ctx, alg, iso, cfg, op, (kx, ky), cid)
+                if op != 'gp' and len(kx) * len(ky) <= 16 and ctx.rng.random() < 0.02:
+                    ops.check_sympy_values(ctx, alg, iso, cfg, op, (kx, ky), cid)
                 if op != 'gp' and kx and ctx.rng.random() < 0.04:
                     ops.check_inplace_staleness(ctx, alg, cfg, lambda x, y, op=op: getattr(x, op)(y), kx, cid, op, other_keys=ky)
                 if cfg.get('opts', {}).get('wrapper') and op != 'gp':
